@@ -6,6 +6,7 @@
 mod append;
 mod catalogue;
 mod derived;
+mod like;
 mod modeled;
 mod probe;
 mod rng;
